@@ -43,7 +43,8 @@ void log_attr_str_value(enum xcm_attr_type type, const void *value, size_t len,
 	snprintf(buf, capacity, "%f", *((const double *)value));
 	break;
     case xcm_attr_type_str:
-	snprintf(buf, capacity, "\"%s\"", (const char *)value);
+	/* 'len' includes the NUL, if there is one; never read beyond it */
+	snprintf(buf, capacity, "\"%.*s\"", (int)len, (const char *)value);
 	buf[capacity-1] = '\0';
 	break;
     case xcm_attr_type_bin: {
